@@ -16,6 +16,10 @@ CONSTANT SmallTolExps       \* for deep cell edges
 CONSTANT CellLevels
 CONSTANT Families, Lengths, SubTolExps
 CONSTANT SnapLevels, SnapExps
+\* sweep: edges across the equator given in integer degrees: from latitude -s (s in SweepSouth),
+\* longitude l (in SweepLng, 0..359 east) to latitude +n (SweepNorth), longitude l + d (SweepDLng),
+\* at the tolerance 1e-4 * 10^(3k/23) for every k in SweepTols (24 log-spaced values up to 1e-1)
+CONSTANT SweepSouth, SweepNorth, SweepLng, SweepDLng, SweepTols
 
 PtSeq == SetToSortSeq(Pts, LexLess)
 Sub == {PtSeq[i] : i \in SubIdx \cap (1..Len(PtSeq))}
@@ -25,6 +29,7 @@ Init ==
     \/ t \in {[kind |-> "tessroot", a |-> a] : a \in Sub}
     \/ t \in {[kind |-> "cellroot", lvl |-> l] : l \in CellLevels}
     \/ t \in {[kind |-> "snaproot"], [kind |-> "subroot"]}
+    \/ t \in {[kind |-> "sweeproot", s |-> s, l |-> l] : s \in SweepSouth, l \in SweepLng}
 Next ==
     \/ /\ t.kind = "tessroot"
        /\ t' \in {[kind |-> "tess", proj |-> p, scale |-> s, tolexp |-> e, a |-> t.a, b |-> b] :
@@ -36,6 +41,9 @@ Next ==
        /\ t' \in {[kind |-> "snap", snapper |-> "cell", arg |-> l] : l \in SnapLevels}
                  \cup {[kind |-> "snap", snapper |-> "latlng", arg |-> e] : e \in SnapExps}
                  \cup {[kind |-> "snap", snapper |-> "cell-default", arg |-> 30]}
+    \/ /\ t.kind = "sweeproot"
+       /\ t' \in {[kind |-> "sweep", proj |-> p, scale |-> sc, s |-> t.s, l |-> t.l, n |-> n, d |-> d, k |-> k] :
+                     p \in Projs, sc \in Scales, n \in SweepNorth, d \in SweepDLng, k \in SweepTols}
     \/ /\ t.kind = "subroot"
        /\ t' \in {[kind |-> "sub", family |-> f, n |-> n, tolexp |-> e] : f \in Families, n \in Lengths, e \in SubTolExps}
 
@@ -49,8 +57,17 @@ ClassThm ==
         /\ (CrossesEquator(t.a, t.b) => ~TouchesEquator(t.a, t.b))
         /\ (ThroughPole(t.a, t.b) => OnMeridian(t.a, t.b))
 
+\* exact facts about a sweep edge (integer degrees): it crosses the equator in its interior, spans less
+\* than 180 degrees of longitude, and crosses the antimeridian iff 180 lies strictly inside its longitude range
+SweepThm ==
+    t.kind = "sweep" => /\ t.s > 0 /\ t.n > 0 /\ t.s < 90 /\ t.n < 90 /\ t.d > 0 /\ t.d < 180
+SweepAnti == t.l < 180 /\ 180 < t.l + t.d
+
 Emit ==
-    IF t.kind = "tess" /\ Admissible
+    IF t.kind = "sweep"
+    THEN PrintT(<<"CASE", ToJson([op |-> "c20.sweep", proj |-> t.proj, scale |-> t.scale, s |-> t.s, l |-> t.l, n |-> t.n,
+                                  d |-> t.d, k |-> t.k, anti |-> SweepAnti])>>)
+    ELSE IF t.kind = "tess" /\ Admissible
     THEN PrintT(<<"CASE", ToJson([op |-> "c20.tess", proj |-> t.proj, scale |-> t.scale, tolexp |-> t.tolexp,
                                   a |-> t.a, b |-> t.b, cls |-> SetToSeq(EdgeClass(t.a, t.b))])>>)
     ELSE IF t.kind = "cell" /\ ~(t.proj = "mercator" /\ t.where = "polar")
